@@ -91,13 +91,13 @@ def evaluate_reuse(case):
     spec, weights = case["obj"], case.get("weights")
     kind = spec.split(":")[0]
     vectors = case["vectors"]
-    labels = [f"reuse:obj={kind}", f"vectors={len(vectors)}"]
+    labels = [f"reuse:obj={kind}", f"vectors={len(vectors)}"] + (["same-container-updated-in-place"] if case.get("inplace") else [])
     calls = []
     for v in vectors:
         asc = all(a <= b for a, b in zip(v, v[1:]))
         declared = True if (asc and kind != "wmaxmin" and case.get("use_fast_path")) else None
         calls.append((v, case.get("seq", "list"), declared))
-    outs = sut.objective_sequence(spec, weights, calls)
+    outs = sut.objective_sequence(spec, weights, calls, inplace=bool(case.get("inplace")))
     fails = []
     for i, (o, (v, _, declared)) in enumerate(zip(outs, calls)):
         w = weights[:len(v)] if weights else None
@@ -114,7 +114,7 @@ def evaluate_reuse(case):
                                   "definition": sut.jsonable(want), "declared_sorted": declared}))
             break
     lens = {len(v) for v in vectors}
-    nontrivial = len(vectors) >= 2 and len(lens) >= 2
+    nontrivial = len(vectors) >= 2 and (len(lens) >= 2 or bool(case.get("inplace")))
     if kind in ("klargest", "ksmallest"):
         kk = int(spec.split(":")[1])
         if any(len(v) < kk for v in vectors) and any(len(v) > kk for v in vectors):
@@ -134,6 +134,9 @@ def reuse_cases(draw):
         lens = [n] * nvec
     else:
         lens = [draw(st.integers(1, 7)) for _ in range(nvec)]
+        if draw(st.integers(0, 2)) == 0:
+            lens = [lens[0]] * nvec              # one container object updated in place between the evaluations
+            case["inplace"] = True
         case["obj"] = f"{kind}:{draw(st.integers(1, max(lens) + 1))}" if kind in ("klargest", "ksmallest") else kind
     vectors = []
     for m in lens:
@@ -259,7 +262,8 @@ def legs(tier):
             "hypothesis: ONE objective object (k-largest / k-smallest with k up to max length + 1, weighted, and the three singletons) "
             "evaluated on 2-4 vectors of different lengths in order (some shorter than k), with and without the sorted fast path: "
             "every value must equal the definition (an object that keeps state between evaluations shows as a wrong later value); "
-            "non-trivial = >= 2 vectors of different lengths", strategy=reuse_cases(), n_quick=3000, n_thorough=60000, valid=valid,
+            "in a third of the cases the vectors are written into one container object in place; non-trivial = >= 2 vectors of different "
+            "lengths, or updated in place", strategy=reuse_cases(), n_quick=3000, n_thorough=60000, valid=valid,
             shrink=shrink_reuse, floor=0.3),
         Leg("exhaustive-small", evaluate,
             "all vectors of <=4 entries over 0..4 x every objective (k in 1..len+3) x 4 sequence types, and all weight "
